@@ -122,7 +122,7 @@ Definition p_doctor : list step :=
 Definition p_update : list step :=
   [SFail (fun f => do_fetch f && negb (do_lock f) && negb (w_lockfile f)) (E "E_UNEXPECTED");
    SGuard (fun f => do_lock f || do_fetch f) (s "update");
-   SWrite (fun f => do_lock f && w_body_writes f) [WConfigRepo];
+   SWrite (fun f => do_lock f && w_body_writes f) [WConfigRepo; WCache];
    SWrite (fun f => do_fetch f && w_body_writes f) [WCache]].
 
 Definition p_overlay_rebase : list step :=
@@ -172,7 +172,7 @@ Definition table : list (str * list step) :=
    (s "import", p_import);
    (s "add", unconditional "add" [WConfigRepo]);
    (s "remove", unconditional "remove" [WConfigRepo]);
-   (s "lock", unconditional "lock" [WConfigRepo]);
+   (s "lock", unconditional "lock" [WConfigRepo; WCache]);   (* resolving git sources fills the cache *)
    (s "fetch", unconditional "fetch" [WCache]);
    (s "update", p_update);
    (s "deploy", p_deploy);
@@ -186,7 +186,7 @@ Definition table : list (str * list step) :=
    (s "record", unconditional "record" [WLogs]);
    (s "evolve propose", p_evolve_propose);
    (s "evolve restore", p_evolve_restore);
-   (s "policy lock", unconditional "policy lock" [WConfigRepo])].
+   (s "policy lock", unconditional "policy lock" [WConfigRepo; WCache])].
 
 Fixpoint lookup (k : str) (t : list (str * list step)) : option (list step) :=
   match t with
